@@ -4,6 +4,7 @@
 //   u1  seed N count                       -> "ok" the first `count` values of uniform(0, 1/N) on mt19937_64(seed)
 //   rs  seed N lin circ quat w_0..w_{N-1}  -> Resampling::resample / neff on a set with distinct columns
 //   rwp seed N lin circ quat ratio w_0..   -> ResamplingWithPrior::resample with a deterministic initialiser
+//   seq seed kind ratio ncalls (N lin circ quat w..) x ncalls -> ONE resampling object serving successive calls of different sizes
 //   glik scale fail m N y P R              -> GaussianLikelihood::likelihood on a measurement model whose calls can fail
 //   sis seed N lin circ K D prior ratio u.. w.. x.. (cmd freeze valid l_0..l_{N-1}) x K
 //                                          -> the real SIS filter thread, scripted models, K steps
@@ -79,17 +80,14 @@ static std::string op_u1(Toks& t) {
 
 // ----------------------------------------------------------------------------- rs
 
-static std::string op_rs(Toks& t) {
-    unsigned long seed = t.nat(); long n = t.nat(), lin = t.nat(), circ = t.nat(); bool quat = t.flag();
-    VectorXd w = t.vec(n); t.done();
+// one resample() call on the object `r`; `twin` is the twin of r's generator, advanced in lock-step
+static std::string rs_call(Resampling& r, std::mt19937_64& twin, long n, long lin, long circ, bool quat, const VectorXd& w) {
     ParticleSet cor(n, lin, circ, quat), res(n, lin, circ, quat);
     fill_set(cor, 0.0); cor.weight() = w;
     fill_set(res, 5.0e6); res.weight().setConstant(777.0);
     ParticleSet cor0 = cor;
     VectorXi par = VectorXi::Constant(n, -7);
-    std::mt19937_64 twin(static_cast<unsigned int>(seed));
     double u1 = twin_u1(twin, n);
-    Resampling r(static_cast<unsigned int>(seed));
     double ne = r.neff(cor.weight());
     r.resample(cor, res, par);
     Out o; o.s("ok");
@@ -109,16 +107,22 @@ static std::string op_rs(Toks& t) {
     return o.str();
 }
 
+static std::string op_rs(Toks& t) {
+    unsigned long seed = t.nat(); long n = t.nat(), lin = t.nat(), circ = t.nat(); bool quat = t.flag();
+    VectorXd w = t.vec(n); t.done();
+    std::mt19937_64 twin(static_cast<unsigned int>(seed));
+    Resampling r(static_cast<unsigned int>(seed));
+    return rs_call(r, twin, n, lin, circ, quat, w);
+}
+
 // ----------------------------------------------------------------------------- rwp
 
 struct HInit : public ParticleSetInitialization {
     bool initialize(ParticleSet& p) override { fill_set(p, 9.0e6); p.weight().setConstant(-3.25); return true; }
 };
 
-static std::string op_rwp(Toks& t) {
-    unsigned long seed = t.nat(); long n = t.nat(), lin = t.nat(), circ = t.nat(); bool quat = t.flag();
-    double ratio = t.dbl();
-    VectorXd w = t.vec(n); t.done();
+// one resample() call on the prior-mixing object `r` (built with `ratio`)
+static std::string rwp_call(ResamplingWithPrior& r, std::mt19937_64& twin, double ratio, long n, long lin, long circ, bool quat, const VectorXd& w) {
     ParticleSet cor(n, lin, circ, quat), res(n, lin, circ, quat);
     fill_set(cor, 0.0); cor.weight() = w;
     fill_set(res, 5.0e6); res.weight().setConstant(777.0);
@@ -135,9 +139,7 @@ static std::string op_rwp(Toks& t) {
     VectorXd kept(m);
     for (long i = 0; i < m; ++i) kept(i) = lw[k + i];
     double lse = utils::log_sum_exp(kept);
-    std::mt19937_64 twin(static_cast<unsigned int>(seed));
     double u1 = twin_u1(twin, m);
-    ResamplingWithPrior r(std::unique_ptr<ParticleSetInitialization>(new HInit()), ratio, static_cast<unsigned int>(seed));
     r.resample(cor, res, par);
     o.s((u1 > 0.0 && u1 < 1.0 / m) ? "u1-in-range" : "u1-out-of-range").d(u1);
     for (long i = 0; i < m; ++i) { double x = kept(i); x -= lse; o.d(std::exp(x)); }
@@ -158,6 +160,41 @@ static std::string op_rwp(Toks& t) {
     bool same = vh::same_bits(cor.state(), cor0.state()) && vh::same_bits(cor.mean(), cor0.mean()) &&
                 vh::same_bits(cor.covariance(), cor0.covariance()) && vh::same_bits(cor.weight(), cor0.weight());
     o.s(same ? "in-same" : "in-modified");
+    return o.str();
+}
+
+static std::string op_rwp(Toks& t) {
+    unsigned long seed = t.nat(); long n = t.nat(), lin = t.nat(), circ = t.nat(); bool quat = t.flag();
+    double ratio = t.dbl();
+    VectorXd w = t.vec(n); t.done();
+    std::mt19937_64 twin(static_cast<unsigned int>(seed));
+    ResamplingWithPrior r(std::unique_ptr<ParticleSetInitialization>(new HInit()), ratio, static_cast<unsigned int>(seed));
+    return rwp_call(r, twin, ratio, n, lin, circ, quat, w);
+}
+
+// ----------------------------------------------------------------------------- seq
+// seq seed kind ratio ncalls (N lin circ quat w_0..w_{N-1}) x ncalls
+// ONE resampling object (kind 0: Resampling, 1: ResamplingWithPrior(ratio), 2: a copy-constructed Resampling,
+// 3: a move-assigned Resampling) serves all the calls, with different particle counts, layouts and weights;
+// one twin generator is advanced in lock-step.  Output: "ok" ncalls, then per call "|" + the block of `rs` / `rwp`.
+static std::string op_seq(Toks& t) {
+    unsigned long seed = t.nat(); int kind = (int)t.nat(); double ratio = t.dbl(); long calls = t.nat();
+    std::vector<long> ns, lins, circs; std::vector<bool> quats; std::vector<VectorXd> ws;
+    for (long c = 0; c < calls; ++c) {
+        long n = t.nat(); ns.push_back(n); lins.push_back(t.nat()); circs.push_back(t.nat()); quats.push_back(t.flag()); ws.push_back(t.vec(n));
+    }
+    t.done();
+    std::mt19937_64 twin(static_cast<unsigned int>(seed));
+    Resampling plain(static_cast<unsigned int>(seed));
+    Resampling copy(plain);                                  // copies the generator state
+    Resampling moved(12345u); moved = Resampling(static_cast<unsigned int>(seed));
+    ResamplingWithPrior prior(std::unique_ptr<ParticleSetInitialization>(new HInit()), ratio, static_cast<unsigned int>(seed));
+    Out o; o.s("ok").n(calls);
+    for (long c = 0; c < calls; ++c) {
+        o.s("|");
+        if (kind == 1) o.s(rwp_call(prior, twin, ratio, ns[c], lins[c], circs[c], quats[c], ws[c]));
+        else o.s(rs_call(kind == 2 ? copy : kind == 3 ? moved : plain, twin, ns[c], lins[c], circs[c], quats[c], ws[c]));
+    }
     return o.str();
 }
 
@@ -399,6 +436,7 @@ int main() {
         if (op == "u1") { out = op_u1(t); return true; }
         if (op == "rs") { out = op_rs(t); return true; }
         if (op == "rwp") { out = op_rwp(t); return true; }
+        if (op == "seq") { out = op_seq(t); return true; }
         if (op == "sis") { out = op_sis(t); return true; }
         if (op == "glik") { out = op_glik(t); return true; }
         return false;
